@@ -26,6 +26,11 @@ type WaterMark struct {
 	mu      sync.Mutex
 	waiters map[uint64]chan struct{}
 	window  atomic.Value // *watermarkWindow
+	// winMu orders slot updates against window rebuilds. Begin/Done pick the current window and
+	// update its slot holding winMu shared; rebuildWindowLocked copies the counts into the new
+	// window and publishes it holding winMu exclusively, so no update can land on a window whose
+	// counts were already copied. Lock order: mu before winMu.
+	winMu sync.RWMutex
 }
 
 type watermarkWindow struct {
@@ -134,10 +139,20 @@ func (w *WaterMark) WaitForMark(ctx context.Context, index uint64) error {
 }
 
 func (w *WaterMark) addIndex(index uint64, delta int32) {
-	win := w.ensureWindow(index)
-	offset := index - win.base
-	if offset < uint64(len(win.slots)) {
-		win.slots[offset].Add(delta)
+	for {
+		w.winMu.RLock()
+		win := w.loadWindow()
+		inWindow := index >= win.base && index-win.base < uint64(len(win.slots))
+		if inWindow {
+			win.slots[index-win.base].Add(delta)
+		}
+		below := index < win.base
+		w.winMu.RUnlock()
+		if inWindow || below {
+			// An index below the window is below the watermark: it is done, nothing to count.
+			break
+		}
+		w.ensureWindow(index)
 	}
 	w.tryAdvance()
 }
@@ -217,6 +232,8 @@ func (w *WaterMark) ensureWindow(index uint64) *watermarkWindow {
 
 // rebuildWindowLocked resizes the window; caller must hold w.mu.
 func (w *WaterMark) rebuildWindowLocked(index uint64, win *watermarkWindow) {
+	w.winMu.Lock()
+	defer w.winMu.Unlock()
 	done := w.DoneUntil()
 	// The watermark's own slot stays in the window: an index can be pending at doneUntil.
 	newBase := done
